@@ -45,7 +45,7 @@ def _single_gate(t, k):
 
 def core(ctx):
     for t in NARY:
-        for k in range(1, 6):
+        for k in range(1, 9):
             yield {"kind": "small", "spec": _single_gate(t, k), "assume": [], "allsingle": True}
     for t in ("buf", "not"):
         yield {"kind": "small", "spec": _single_gate(t, 1), "assume": [], "allsingle": True}
@@ -110,7 +110,7 @@ def core(ctx):
 def _case(draw, ctx):
     mode = draw(st.sampled_from(["small", "small", "small_alias", "small_cyc", "big"]))
     if mode == "small":
-        spec = draw(S.circuit_spec(min_inputs=0, max_inputs=4, min_gates=1, max_gates=6, max_fanin=5,
+        spec = draw(S.circuit_spec(min_inputs=0, max_inputs=draw(st.sampled_from([4, 4, 7])), min_gates=1, max_gates=6, max_fanin=7,
                                    max_insts=1, pools=(S.BENIGN, S.COMPOUND, S.TOOLLIKE)))
     elif mode == "small_alias":
         spec = draw(S.circuit_spec(min_inputs=2, max_inputs=5, min_gates=1, max_gates=5, max_fanin=4,
@@ -121,7 +121,7 @@ def _case(draw, ctx):
                                    cyclic=True, selfloops=draw(st.booleans()),
                                    pools=(S.BENIGN, S.COMPOUND, S.TOOLLIKE)))
     else:
-        spec = draw(S.circuit_spec(min_inputs=1, max_inputs=7, min_gates=4, max_gates=18, max_fanin=5,
+        spec = draw(S.circuit_spec(min_inputs=1, max_inputs=7, min_gates=4, max_gates=18, max_fanin=7,
                                    max_insts=1, pools=(S.BENIGN, S.COMPOUND, S.TOOLLIKE)))
     # keep "small" within the enumeration bound
     names = [x[0] for x in spec["nodes"]]
